@@ -115,6 +115,8 @@ type ConnSpec struct {
 
 	Setup    func(l *simnet.Link)
 	Deadline time.Duration
+	// OnClientWrite runs on the scheduler goroutine before each client transport write is applied.
+	OnClientWrite func(l *simnet.Link, b []byte)
 	// ServerStall: the server stops reading for this long right after its handshake (slow node).
 	ServerStall time.Duration
 }
@@ -302,6 +304,9 @@ func RunConn(c *Ctx, w *simrt.World, sp *ConnSpec) *ConnOutcome {
 	}
 	first := true
 	l.A.OnWrite = func(w *simrt.World, b []byte) {
+		if sp.OnClientWrite != nil {
+			sp.OnClientWrite(l, b)
+		}
 		if first {
 			first = false
 			if o.U != nil && o.U.HandshakeState.Hello != nil {
